@@ -44,6 +44,12 @@ def gen_cases(ctx):
     add("cancel-after-last-task", [task(0, ["0.05"])], [{"op": "run", "tasks": [0]}, {"op": "cancel_sync"}])
     add("cancel-twice-idle", [task(0, ["0.05"])], [{"op": "cancel_sync"}, {"op": "cancel_sync"}, {"op": "run", "tasks": [0]}])
     add("cancel-then-two-runs", [task(0, ["0.05"]), task(1, ["0.05"])], [{"op": "cancel_sync"}, {"op": "run", "tasks": [0, 1]}])
+    # Cancel again after runs that the cancelled runner refused (each refused run must leave nothing behind for the next Cancel to wait for)
+    add("cancel-run-cancel", [task(0, ["0.05"])], [{"op": "cancel_sync"}, {"op": "run", "tasks": [0]}, {"op": "cancel_sync"}])
+    add("cancel-runs-cancel-cancel", [task(r, ["0.05"]) for r in range(3)],
+        [{"op": "cancel_sync"}, {"op": "par", "tasks": [0, 1, 2]}, {"op": "cancel_sync"}, {"op": "run", "tasks": [1]}, {"op": "cancel_sync"}])
+    add("run-cancel-run-cancel", [task(0, ["0.05"]), task(1, ["0.05"])],
+        [{"op": "run", "tasks": [0]}, {"op": "cancel_sync"}, {"op": "run", "tasks": [1]}, {"op": "cancel_sync"}])
     # k tasks in flight, Cancel during the commands; once, and twice in a row
     for k in range(0, 5):
         for twice in (False, True):
@@ -83,6 +89,10 @@ def gen_cases(ctx):
             st2 = [dict(s) for s in stages] + [{"task": 0 if k else 0, "deps": [], "cond": "/nonexistent/verif-no-such-command"}]
             tasks2 = tasks if tasks else [task(0, ["0.05"])]
             add("pipeline-conderr-%d-%d" % (k, w), tasks2, [{"op": "pipeline", "stages": st2}])
+            # ... and a Cancel from outside once the pipeline run has returned (the user's ^C arriving late)
+            if w in (0, 3):
+                add("pipeline-conderr-then-cancel-%d-%d" % (k, w), tasks2, [{"op": "pipeline", "stages": st2}, {"op": "cancel_sync"}])
+                add("pipeline-ext-then-cancel-%d-%d" % (k, w), tasks, [{"op": "cancel", "after_ms": 500}, {"op": "pipeline", "stages": stages}, {"op": "cancel_sync"}])
     return cases
 
 
